@@ -89,6 +89,54 @@ def _diff_history(args):
         drv.close()
 
 
+def _conn_history(args):
+    """The same differential one level up: requests travel over PERSISTENT connections (one KmipSession per client, kept for
+    the whole history).  Each request's answer on the used connection must equal its answer on a fresh connection to a fresh
+    engine opened on a copy of the database taken just before it.  Requests carry header options a session might remember:
+    a maximum response size, different protocol versions, credentials."""
+    tid, seed, nreq = args
+    common.scratch()
+    D.CLOCK.now = 1500000 + (seed % 1000) * 1000
+    intern = E.new_interner()
+    drv = D.SessionDriver(intern=intern)
+    mism, probes = [], 0
+    try:
+        gen = G.Gen(seed, users=("alice", "bob"), versions=G.VERSIONS,
+                    weights={"Query": 3, "DiscoverVersions": 2, "Create": 2, "Register": 2, "Get": 3, "GetAttributes": 3,
+                             "GetAttributeList": 2, "Locate": 2, "Activate": 1, "Attr": 1})
+        raw = []
+        for i in range(nreq):
+            D.CLOCK.now += gen.r.choice([0, 1, 2])
+            req = gen.request(0.15)
+            x = gen.r.random()
+            if x < 0.3:
+                req["maxsize"] = gen.r.choice([8, 64, 256, 4096, 100000])
+            if gen.r.random() < 0.2:
+                req["cred"] = (req["user"], "pw-%d" % i)
+            snap = drv.db + ".pre"
+            drv.snapshot(snap)
+            now = D.CLOCK.now
+            res = drv.request(req)
+            raw.append(req)
+            if res.get("kind") == "unsendable":
+                continue
+            gen.observe(res, drv.state())
+            fresh = D.SessionDriver(intern=intern, db=snap)
+            try:
+                D.CLOCK.now = now
+                res2 = fresh.request(req)
+            finally:
+                fresh.close()
+            probes += 1
+            nf = T.NotFoundTemplate("Could not locate object: %d" % T.PROBE_UID)
+            a, b = T.norm_res(res, nf), T.norm_res(res2, nf)
+            if a != b:
+                mism.append({"i": i + 1, "requests": raw[-6:], "used_connection": a, "fresh_connection": b})
+        return mism, probes
+    finally:
+        drv.close()
+
+
 def check(run, tier):
     quick = tier == "quick"
     run.rule = ("leg A: TLC, MC_C08 histories with the clause C11_placeholder (an identifier-less first item never succeeds) and "
@@ -120,6 +168,22 @@ def check(run, tier):
                            "used_status": [x["status"] for x in mm["used"]["items"]] or mm["used"]["kind"],
                            "fresh_status": [x["status"] for x in mm["fresh"]["items"]] or mm["fresh"]["kind"]},
                           mm)
+    # one level up: persistent connections
+    from .. import sessdrv as S
+    for u in ("alice", "bob"):
+        S.make_cert(1, "client", cn=u)
+    nc, mc = (32, 30) if quick else (200, 60)
+    with multiprocessing.Pool(common.NCPU) as pool:
+        cout = pool.map(_conn_history, [("k%d" % i, common.SEED * 7001 + i, mc) for i in range(nc)], chunksize=1)
+    run.extra["connection_differential_probes"] = sum(o[1] for o in cout)
+    run.traces += nc
+    for mism, _ in cout:
+        for mm in mism:
+            req = mm["requests"][-1]
+            run.violation("C11_connection_differential",
+                          {"ops": [it["op"] for it in req["items"]][:3], "ver": req["ver"][0] * 10 + req["ver"][1],
+                           "used": mm["used_connection"].get("reason") or [x["status"] for x in mm["used_connection"]["items"]],
+                           "fresh": mm["fresh_connection"].get("reason") or [x["status"] for x in mm["fresh_connection"]["items"]]}, mm)
     E.judge(run, traces, only=ONLY, name="c11")
     E.summarise(run, traces)
     for t in traces:
